@@ -23,8 +23,8 @@ PROP = dict(
                  "API unit: attribute keys are ASCII identifiers other than 'field'; string values are printable ASCII without quotes/backslashes (PQL text issues belong to C26)"],
     tags=[],
     units=[
-        U("store", "./boltdb", "^TestVerifC25_Store$", 1000, 50000, sq=4, sth=14),
-        U("diff", ".", "^TestVerifC25_Diff$", 2000, 100000, sq=1, sth=2),
-        U("api", "./server", "^TestVerifC25_API$", 240, 3600, sq=4, sth=12),
+        U("store", "./boltdb", "^TestVerifC25_Store$", 1000, 24000, sq=4, sth=8),
+        U("diff", ".", "^TestVerifC25_Diff$", 2000, 50000, sq=1, sth=1),
+        U("api", "./server", "^TestVerifC25_API$", 240, 1800, sq=4, sth=6),
     ],
 )
